@@ -691,6 +691,17 @@ def _reduce_add_float(ctx):
     R = ctx.ret = Arg("S", ctx.tid, None, scalar="__CPROVER_return_value")
     W = ctx.w
     F = lambda i: "U2F%d(%s)" % (W, x.lane(i))
+    if ctx.n >= 8:
+        # wide registers: the exactness clause is beyond the solvers (7+ chained adders); the routing clause is decided instead, with the
+        # exact fact x + (+0.0) == x of the abstract adder: at most one lane differs from +0.0 (and is not a NaN), and the result is
+        # numerically that lane -- a lane that is skipped, or counted twice, changes it
+        for i in range(ctx.n):
+            ctx.requires.append("!spec_isnan_%s(%s)" % (ctx.tid, x.lane(i)))
+        ctx.requires.append("(%s) <= 1" % " + ".join("(%s != 0)" % x.lane(i) for i in range(ctx.n)))
+        ctx.ensures.append("(__CPROVER_return_value == U2F%d(%s))" % (W, " | ".join(x.lane(i) for i in range(ctx.n))))
+        ctx.mode = "ufadd"
+        ctx.uses_float = True
+        return
     for i in range(ctx.n):
         ctx.requires.append("(%s >= -8.0 && %s <= 8.0 && %s == (f%d)(s32)%s)" % (F(i), F(i), F(i), W, F(i)))
     ctx.ensures.append("(__CPROVER_return_value == (f%d)(%s))" % (W, " + ".join("(s32)%s" % F(i) for i in range(ctx.n))))
@@ -768,3 +779,64 @@ def _cplx_cmp(neq):
 
 row("eq", "CC", "M", types=FLOAT_TYPES, prop="C16")(_cplx_cmp(False))
 row("neq", "CC", "M", types=FLOAT_TYPES, prop="C16")(_cplx_cmp(True))
+
+
+# ---- arrays of batches: haddp (C09) and transpose (C05) ------------------------------------------------------------------------------------
+@row("haddp", "R", "B", types=FLOAT_TYPES, prop="C09")
+def _haddp(ctx):
+    rows_ = ctx.args[0]
+    R = ctx.ret = bind_ret(ctx, "B")
+    n, W = ctx.n, ctx.w
+    regbytes = n * W // 8
+    ctx.mem_bytes = {rows_.cname: n * regbytes}
+    ctx.requires.append("__CPROVER_r_ok(%s, %d)" % (rows_.scalar, n * regbytes))
+    ens = []
+    if n * (n - 1) <= 24:
+        # exactness clause (as reduce_add): integer-valued lanes of small magnitude, lane i of the result is the exact sum of row i
+        for i in range(n):
+            ri = rows_.row(i)
+            F = lambda j: "U2F%d(%s)" % (W, ri.lane(j))
+            for j in range(n):
+                ctx.requires.append("(%s >= -4.0 && %s <= 4.0 && %s == (f%d)(s32)%s)" % (F(j), F(j), F(j), W, F(j)))
+            ens.append("(U2F%d(%s) == (f%d)(%s))" % (W, R.lane(i), W, " + ".join("(s32)%s" % F(j) for j in range(n))))
+    else:
+        # routing clause for the wide registers (the exactness clause is beyond the solvers there), as a case split over the rows: in case k
+        # every row but k is +0.0 and at most one lane of row k is not +0.0 (and is not a NaN).  Lane i of the result is then numerically
+        # the only candidate of row i (the OR of the row's bit patterns): every lane is counted exactly once, in its own row and in no other.
+        k = ctx.variant or 0
+        ctx.variants = n
+        cnt = []
+        init = []
+        for i in range(n):
+            ri = rows_.row(i)
+            for j in range(n):
+                if i == k:
+                    cnt.append("(%s != 0)" % ri.lane(j))
+                    ctx.requires.append("!spec_isnan_%s(%s)" % (ctx.tid, ri.lane(j)))
+                else:
+                    ctx.requires.append("%s == 0" % ri.lane(j))
+            if i != k:
+                init += ["{M}[%d] = 0;" % b for b in range(i * regbytes, (i + 1) * regbytes)]
+            ens.append("(U2F%d(%s) == U2F%d(%s))" % (W, R.lane(i), W, (" | ".join(ri.lane(j) for j in range(n))) if i == k else "0"))
+        ctx.requires.append("(%s) <= 1" % " + ".join(cnt))
+        ctx.harness_mem_init = {rows_.cname: init}
+        ctx.mode = "ufaddc" if n >= 16 else "ufadd"      # x + (+0.0) is an exact fact of the abstract adder: no adder is bit-blasted
+    ctx.ensures += conj(ens, 2)
+    ctx.uses_float = True
+
+
+@row("transpose", "RR", "V", prop="C05")
+def _transpose(ctx):
+    m, e = ctx.args
+    n, W = ctx.n, ctx.w
+    regbytes = n * W // 8
+    ctx.mem_bytes = {m.cname: n * regbytes, e.cname: 0}
+    ctx.requires.append("__CPROVER_w_ok(%s, %d)" % (m.scalar, n * regbytes))
+    ctx.requires.append("%s == %s + %d" % (e.scalar, m.scalar, n))
+    ens = []
+    for i in range(n):
+        for j in range(n):
+            ens.append("(%s == %s)" % (m.row(i).lane(j), m.row(j, old=True).lane(i)))
+    ctx.ensures += conj(ens, 8)
+    ctx.assigns.append("__CPROVER_object_upto(%s, %d)" % (m.scalar, n * regbytes))
+    ctx.end_is_begin_plus = (e.cname, m.cname, n)
